@@ -111,6 +111,9 @@ func genExposureWorld(g *rng.R, allowUnusedNs bool) *world.World {
 	if g.P(0.3) { // full / almost-full / complementary port sets, also as entire-cluster rules next to specific ones
 		world.AddCanonStress(g, w)
 	}
+	if g.P(0.15) { // workloads and a policy in the namespace literally called "default" (manifests without metadata.namespace)
+		world.AddDefaultNamespaceWorkloads(g, w, cfg)
+	}
 	if g.P(0.2) { // Ingress / Route objects next to exposure analysis: the synthetic ingress controller is one more peer in the engine
 		world.GenIngressResources(g, w)
 	}
